@@ -47,6 +47,41 @@ pub mod biguint {
         }
     }
 
+    pub mod bits {
+        fn negate_carry(a: u64, acc: &mut u128) -> u64 {
+            *acc += u128::from(!a);
+            let lo = *acc as u64;
+            *acc >>= 64;
+            lo
+        }
+
+        // R9-carry-exit: the loop stops when the first carry has settled, whatever the second one holds
+        pub fn twice_negated(a: &mut [u64]) {
+            let mut carry_a = 1;
+            let mut carry_out = 1;
+            for ai in a.iter_mut() {
+                if carry_a == 0 {
+                    break;
+                }
+                let t = negate_carry(*ai, &mut carry_a);
+                *ai = negate_carry(t, &mut carry_out);
+            }
+        }
+
+        // control: both carries are looked at
+        pub fn twice_negated_ok(a: &mut [u64]) {
+            let mut carry_a = 1;
+            let mut carry_out = 1;
+            for ai in a.iter_mut() {
+                if carry_a == 0 && carry_out == 0 {
+                    break;
+                }
+                let t = negate_carry(*ai, &mut carry_a);
+                *ai = negate_carry(t, &mut carry_out);
+            }
+        }
+    }
+
     pub mod shift {
         use super::BigUint;
         use core::ops::Shl;
